@@ -10,6 +10,13 @@ checks compare implementation output with it (direct oracle).
 Types are nested tuples:
   ("prim", name) ("slice", T) ("ptr", T) ("map", K, V) ("chan", T) ("func", sig)
   ("array", n, T) ("struct", (field, ...)) ("named", id, T)      field = (name, emb, tag, T)
+
+The id of a defined type of package main is its bare name (`NI8`, `T7_2`).  Defined types of the
+generated harness sub-packages `harness/pa/v1`, `harness/pb/v1`, `harness/pc/v1` (all three are
+`package v1` and declare types of the SAME names with different or identical underlying types)
+have the id `<dir>/v1.<Name>` (`pa/v1.ID`): that id - the type's identity - goes to the oracle,
+the Go source text uses the import alias (`v1a.ID`) and reflect prints `v1.ID` for all three.
+Composite types of such elements (`[]v1.ID`, `*v1.ID`, `map[string]v1.ID`, ...) print identically too.
 """
 import binascii
 
@@ -43,6 +50,134 @@ OTHER = ("named", "Other", ("struct", (("X", False, "", P("int")),)))
 
 def named(i):
     return ("named", i, POOL[i])
+
+
+# ------------------------------------------------------------------ types that PRINT identically
+# Harness-local packages: directory -> import alias used in shapes_gen.go.  Every package is `package v1`,
+# so reflect.Type.String() is `v1.<Name>` for each of them; only PkgPath() (and type identity) differ.
+# All names are exported and struct fields are exported (the harness reads them through selectors).
+# No interface or channel kinds: AssignableTo is wider than identity there (an empty interface type
+# accepts everything), hseq.ForType's `String()== && AssignableTo` is type identity on the rest.
+FOREIGN_ALIAS = {"pa": "v1a", "pb": "v1b", "pc": "v1c"}
+_REC_A = ("struct", (("A", False, "", P("int8")), ("B", False, "", P("int64"))))
+FOREIGN = {
+    "pa": {"ID": P("string"), "Code": P("int64"), "Rec": _REC_A, "Same": P("int64"), "Tag": P("string"), "Pair": _REC_A,
+           "List": ("slice", P("int16")), "Zero": ("struct", ()), "Dict": ("map", P("string"), P("int"))},
+    "pb": {"ID": P("int32"), "Code": ("array", 3, P("uint8")), "Rec": ("struct", (("X", False, "", P("int32")),)), "Same": P("int64"),
+           "Tag": P("string"), "Pair": _REC_A, "List": ("slice", P("string")), "Zero": ("array", 0, P("int64")), "Dict": ("map", P("string"), P("int"))},
+    "pc": {"ID": P("uint8"), "Code": P("complex128"), "Same": P("int64"),
+           "Rec": ("struct", (("A", False, "", P("int8")), ("B", False, "", P("int64")), ("C", False, "", ("array", 2, P("int16")))))},
+}
+FOREIGN_COMPARABLE = ["ID", "Same", "Tag"]     # usable as map keys in every package that has them
+
+
+def foreign(pkg, name):
+    return ("named", "%s/v1.%s" % (pkg, name), FOREIGN[pkg][name])
+
+
+def is_foreign(t):
+    return t[0] == "named" and "/" in t[1]
+
+
+def foreign_parts(i):
+    """`pa/v1.ID` -> ("pa", "ID")."""
+    d, rest = i.split("/", 1)
+    return d, rest.split(".", 1)[1]
+
+
+def repackage(t, pkg):
+    """t with every harness-package type replaced by the same-named type of package `pkg` (None if `pkg`
+    lacks one of the names).  Does not look inside defined types of package main (they print by name)."""
+    k = t[0]
+    if k == "named":
+        if not is_foreign(t):
+            return t
+        nm = foreign_parts(t[1])[1]
+        return foreign(pkg, nm) if nm in FOREIGN[pkg] else None
+    if k in ("slice", "ptr", "chan"):
+        u = repackage(t[1], pkg)
+        return None if u is None else (k, u)
+    if k == "map":
+        a, b = repackage(t[1], pkg), repackage(t[2], pkg)
+        return None if a is None or b is None else (k, a, b)
+    if k == "array":
+        u = repackage(t[2], pkg)
+        return None if u is None else (k, t[1], u)
+    if k == "struct":
+        fs = []
+        for (n, e, tg, ft) in t[1]:
+            u = repackage(ft, pkg)
+            if u is None:
+                return None
+            fs.append((n, e, tg, u))
+        return (k, tuple(fs))
+    return t
+
+
+def counterparts(t):
+    """The OTHER Go types that reflect prints exactly like t (t with its harness-package types taken from another package)."""
+    out = []
+    for pkg in FOREIGN:
+        u = repackage(t, pkg)
+        if u is not None and u != t and u not in out:
+            out.append(u)
+    return out
+
+
+def foreign_ids(t):
+    """ids of the harness-package types t is written with (not looking inside defined types of package main)."""
+    k = t[0]
+    if k == "named":
+        return {t[1]} if is_foreign(t) else set()
+    if k in ("slice", "ptr", "chan"):
+        return foreign_ids(t[1])
+    if k == "map":
+        return foreign_ids(t[1]) | foreign_ids(t[2])
+    if k == "array":
+        return foreign_ids(t[2])
+    if k == "struct":
+        return set().union(*[foreign_ids(ft) for (_, _, _, ft) in t[1]]) if t[1] else set()
+    return set()
+
+
+def foreign_source(pkg):
+    """Source of harness/<pkg>/v1/v1.go."""
+    return ("// Code generated by checks/shapes.py. DO NOT EDIT.\n\n// Package v1 (import path harness/%s/v1) shares its package name and its type names with the\n"
+            "// sibling packages: reflect prints `v1.<Name>` for all of them.\npackage v1\n\n" % pkg
+            + "\n".join("type %s %s" % (n, gosrc(u)) for n, u in FOREIGN[pkg].items()) + "\n")
+
+
+def foreign_files():
+    return {"%s/v1/v1.go" % pkg: foreign_source(pkg) for pkg in FOREIGN}
+
+
+PRIM_SA = {"bool": (1, 1), "int8": (1, 1), "uint8": (1, 1), "int16": (2, 2), "uint16": (2, 2), "int32": (4, 4), "uint32": (4, 4), "float32": (4, 4),
+           "int64": (8, 8), "uint64": (8, 8), "int": (8, 8), "uint": (8, 8), "uintptr": (8, 8), "float64": (8, 8), "complex64": (8, 4),
+           "complex128": (16, 8), "string": (16, 8), "iface": (16, 8), "unsafeptr": (8, 8)}
+
+
+def size_align(t):
+    """gc/amd64 size and alignment; used for the labels of the input distribution only (never for a verdict)."""
+    k = t[0]
+    if k == "prim":
+        return PRIM_SA[t[1]]
+    if k == "slice":
+        return (24, 8)
+    if k in ("ptr", "map", "chan", "func"):
+        return (8, 8)
+    if k == "array":
+        s, a = size_align(t[2])
+        return (t[1] * s, a)
+    if k == "named":
+        return size_align(t[2])
+    cur, al, last = 0, 1, None
+    for (_, _, _, ft) in t[1]:
+        s, a = size_align(ft)
+        cur = (cur + a - 1) // a * a + s
+        al, last = max(al, a), s
+    if cur > 0 and last == 0:
+        cur += 1
+    return ((cur + al - 1) // al * al, al)
 
 
 def strip(t):
@@ -108,6 +243,9 @@ def gosrc(t):
     if k == "array":
         return "[%d]%s" % (t[1], gosrc(t[2]))
     if k == "named":
+        if is_foreign(t):
+            d, nm = foreign_parts(t[1])
+            return FOREIGN_ALIAS[d] + "." + nm
         return t[1]
     if k == "struct":
         if not t[1]:
@@ -127,7 +265,8 @@ def goquote(s):
 
 
 def gostr(t):
-    """What reflect.Type.String() prints (package main)."""
+    """What reflect.Type.String() prints: `main.T` for the defined types of the harness' package main, `v1.T` for
+    the types of harness/pa/v1, harness/pb/v1, harness/pc/v1 alike (package NAME, not import path)."""
     k = t[0]
     if k == "prim":
         return STRPRIM.get(t[1], t[1])
@@ -144,7 +283,7 @@ def gostr(t):
     if k == "array":
         return "[%d]%s" % (t[1], gostr(t[2]))
     if k == "named":
-        return "main." + t[1]
+        return t[1].rsplit("/", 1)[1] if is_foreign(t) else "main." + t[1]
     if k == "struct":
         if not t[1]:
             return "struct {}"
@@ -223,31 +362,65 @@ NAMES = ["A", "B", "C", "D", "E", "X", "Y", "Z", "Id", "Name", "Val", "Key", "a"
 MAPKEYS = ["string", "int", "int8", "uint32"]
 
 
+COLLIDE_FRACTION = 0.3
+
+
 class ShapeGen:
     """Generates the struct type `T<sid>` with inner types `T<sid>_<k>` / `t<sid>_<k>`."""
 
-    def __init__(self, rng, sid, ptr_embed=True, maxdepth=None, nfields=None):
+    def __init__(self, rng, sid, ptr_embed=True, maxdepth=None, nfields=None, collide=None):
         self.rng, self.sid, self.ptr_embed = rng, sid, ptr_embed
         self.maxdepth = rng.choice([0, 1, 1, 2, 2, 3, 3, 4]) if maxdepth is None else maxdepth
         self.decls = []       # (id, underlying) in dependency order
         self.inner = []       # finished inner struct types (named tuples), reusable
         self.k = 0
+        # a fraction of the shapes holds groups of DISTINCT types that reflect prints identically
+        self.colliders = self.make_colliders() if (rng.random() < COLLIDE_FRACTION if collide is None else collide) else []
         self.palette = [self.rand_type(0) for _ in range(rng.randint(3, 7))]
         self.keys = rng.sample(NAMES, 6)
-        top = self.struct(0, rng.randint(1, 12) if nfields is None else nfields)
+        n = rng.randint(1, 12) if nfields is None else nfields
+        top = self.struct(0, max(1, n - len(self.colliders)) if nfields is None else n)
         self.type = ("named", "T%d" % sid, top)
         self.decls.append(("T%d" % sid, top))
 
     def rand_prim(self):
         return P(self.rng.choice(PRIMS))
 
+    def make_colliders(self):
+        """1..2 groups of 2..3 types each; the types of a group come from different harness packages, have the same
+        name and sit under the same composite wrapper, so that reflect prints all of a group identically."""
+        r = self.rng
+        out = []
+        # ID, Code, Rec differ in size and kind from package to package (weight 3 each); Same, Tag, Pair, Dict have identical
+        # underlying types; List, Zero differ in element type only
+        bases = []
+        for base in r.sample(sorted(FOREIGN["pa"]) + ["ID", "Code", "Rec"] * 2, r.choice([1, 1, 1, 2])):
+            if base not in bases:
+                bases.append(base)
+        for base in bases:
+            pkgs = [p for p in sorted(FOREIGN) if base in FOREIGN[p]]
+            r.shuffle(pkgs)
+            pkgs = pkgs[:r.choice([2, 2, 3])]
+            wraps = ["plain"] * 7 + ["array", "struct"] * 2 + ["slice", "ptr", "map", "ptrptr"] + (["mapkey"] if base in FOREIGN_COMPARABLE else [])
+            w = r.choice(wraps)
+            n = r.choice([1, 2, 3])
+            for p in pkgs:
+                t = foreign(p, base)
+                out.append({"plain": t, "slice": ("slice", t), "ptr": ("ptr", t), "ptrptr": ("ptr", ("ptr", t)), "map": ("map", P("string"), t),
+                            "mapkey": ("map", t, P("int16")), "array": ("array", n, t), "struct": ("struct", (("V", False, "", t), ("n", False, "", P("int8"))))}[w])
+        return out
+
     def rand_type(self, depth):
         r = self.rng
         x = r.random()
         if x < 0.50 or depth >= 2:
             return self.rand_prim()
-        if x < 0.65:
+        if x < 0.62:
             return named(r.choice(list(POOL)))
+        if x < 0.65:
+            # a lone type of a harness package: its same-printing counterparts are absent from the shape
+            p = r.choice(sorted(FOREIGN))
+            return foreign(p, r.choice(sorted(FOREIGN[p])))
         c = r.choice(["slice", "ptr", "array", "array", "map", "chan", "func", "struct", "empty"])
         if c == "slice":
             return ("slice", self.rand_type(depth + 1))
@@ -338,6 +511,19 @@ class ShapeGen:
                 f = (fresh_name(), False, self.rand_tag(), self.leaf())
             used.add(f[0])
             fs.append(f)
+        if self.colliders and (level == 0 or r.random() < 0.3):
+            # every group at the top level (in random order: each type of a group is the decoy BEFORE the others for
+            # some shape and AFTER them for another), some of them again inside inner structs (other root offsets)
+            cs = list(self.colliders) if level == 0 else r.sample(self.colliders, r.randint(1, len(self.colliders)))
+            r.shuffle(cs)
+            for t in cs:
+                base = foreign_parts(t[1])[1] if is_foreign(t) else None
+                if base is not None and base not in used and r.random() < 0.3:
+                    f = (base, True, self.rand_tag() if r.random() < 0.3 else "", t)    # embedded by value: the field is called like the type
+                else:
+                    f = (fresh_name(), False, self.rand_tag(), t)
+                used.add(f[0])
+                fs.insert(r.randrange(len(fs) + 1), f)
         if fs and r.random() < 0.2:
             z = r.choice([("struct", ()), ("array", 0, P("int64")), named("NEmpty"), named("NZero"), ("array", 0, named("NPair"))])
             nm = fresh_name()
@@ -360,8 +546,18 @@ def corner_shapes():
     c4 = ("named", "C4", ("struct", ((("only"), False, "", E),)))
     c5 = ("named", "C5", ("struct", (("a", False, "", ("array", 0, I64)), ("b", False, "", I8), ("c", False, "", ("array", 0, I64)))))
     big = ("named", "CBig", ("struct", tuple(("F%d" % i, False, "", P(PRIMS[i % 16])) for i in range(12))))
+    # distinct types that print identically (`v1.ID`, `v1.Rec`, `[]v1.ID`, `*v1.Code`, ...): the decoy before and after,
+    # smaller and larger than the focus, of identical underlying type, embedded by value and one embedding level down
+    F = foreign
+    k1 = ("named", "CK1", ("struct", (("A", False, "", F("pa", "ID")), ("B", False, "", F("pb", "ID")), ("C", False, "", F("pc", "ID")), ("D", False, "", I64))))
+    k2 = ("named", "CK2", ("struct", (("X", False, "", I8), ("C", False, "", F("pc", "ID")), ("B", False, "", F("pb", "ID")), ("A", False, "", F("pa", "ID")), ("G", False, "", I8))))
+    kin = ("named", "CKIn", ("struct", (("K", False, "", I8), ("I", False, "", F("pb", "Code")), ("S", False, "", F("pb", "Same")))))
+    k3 = ("named", "CK3", ("struct", (("Rec", True, "", F("pa", "Rec")), ("R", False, "", F("pb", "Rec")), (kin[1], True, "", kin), ("S1", False, "", F("pa", "Same")),
+                                      ("S2", False, "", F("pb", "Same")), ("J", False, 'hseq:"I"', F("pa", "Code")), ("L", False, "", ("slice", F("pb", "ID"))),
+                                      ("M", False, "", ("slice", F("pa", "ID"))), ("P", False, "", ("ptr", F("pb", "Code"))), ("Q", False, "", ("ptr", F("pa", "Code"))),
+                                      ("T1", False, "", F("pb", "Tag")), ("T2", False, "", F("pa", "Tag")))))
     out = []
-    for decls, t in [([in3, in2, in1, c1], c1), ([pin, c2], c2), ([pin, c3], c3), ([c4], c4), ([c5], c5), ([big], big)]:
+    for decls, t in [([in3, in2, in1, c1], c1), ([pin, c2], c2), ([pin, c3], c3), ([c4], c4), ([c5], c5), ([big], big), ([k1], k1), ([k2], k2), ([kin, k3], k3)]:
         out.append(([(d[1], d[2]) for d in decls], t))
     return out
 
@@ -374,6 +570,14 @@ class Shape:
             e["id"] = i
         self.paths = value_paths(typ)
         self.gotype = typ[1]
+        # listed types that share their printed name with ANOTHER listed type, in listing order of first occurrence
+        first, byprint = [], {}
+        for e in self.listing:
+            if e["type"] not in first:
+                first.append(e["type"])
+                byprint.setdefault(gostr(e["type"]), []).append(e["type"])
+        self.colliding = [t for t in first if len(byprint[gostr(t)]) > 1]
+        self.groups = [g for g in byprint.values() if len(g) > 1]
 
     def sx(self, t):
         return sexpr(t, self.type)
@@ -388,14 +592,14 @@ class Shape:
         return max([len(e["path"]) for e in self.listing] + [0])
 
 
-def make_shapes(rng, n, first_sid=0, ptr_embed=True, corners=True):
+def make_shapes(rng, n, first_sid=0, ptr_embed=True, corners=True, collide=None):
     shapes, seen_decl = [], {}
     if corners:
         for decls, t in corner_shapes():
             shapes.append(Shape(len(shapes) + first_sid, t, decls))
     while len(shapes) < n:
         sid = len(shapes) + first_sid
-        g = ShapeGen(rng, sid, ptr_embed=ptr_embed)
+        g = ShapeGen(rng, sid, ptr_embed=ptr_embed, collide=collide)
         sh = Shape(sid, g.type, g.decls)
         if len(sh.listing) > 64 or len(sh.paths) > 120:
             continue    # re-used inner types can multiply; keep the listing bounded
@@ -437,8 +641,10 @@ class Emitter:
             funcs.append("func part%d() {\n%s\n}" % (n, "\n".join(chunk)))
             calls.append("\tpart%d()" % n)
         return ("// Code generated by checks/shapes.py. DO NOT EDIT.\npackage main\n\nimport (\n\t\"fmt\"\n\t\"unsafe\"\n\n"
-                "\t\"github.com/fogfish/golem/hseq\"\n\t\"github.com/fogfish/golem/optics\"\n)\n\n"
-                "var _ = fmt.Sprint\nvar _ unsafe.Pointer\nvar _ = hseq.New[Other]\nvar _ = optics.ForProduct1[Other, int]\n\n"
+                "\t\"github.com/fogfish/golem/hseq\"\n\t\"github.com/fogfish/golem/optics\"\n\n"
+                + "".join("\t%s \"harness/%s/v1\"\n" % (a, d) for d, a in FOREIGN_ALIAS.items()) + ")\n\n"
+                "var _ = fmt.Sprint\nvar _ unsafe.Pointer\nvar _ = hseq.New[Other]\nvar _ = optics.ForProduct1[Other, int]\n"
+                + "".join("var _ %s.ID\n" % a for a in FOREIGN_ALIAS.values()) + "\n"
                 + "\n".join(pool) + "\n\n" + "\n".join(self.decl_lines) + "\n\n" + "\n\n".join(funcs)
                 + "\n\nfunc runAll() {\n" + "\n".join(calls) + "\n}\n")
 
@@ -474,6 +680,10 @@ def absent_types(sh, rng, n):
             [("slice", P("int8")), ("array", 3, P("uint8")), ("array", 4, P("uint8")), sh.type, ("ptr", sh.type), OTHER]
     cands = [c for c in cands if c not in present]
     rng.shuffle(cands)
+    # a type that PRINTS like a listed one but is another type (same name, other package) is absent all the same
+    twins = [u for t in present for u in counterparts(t) if u not in present]
+    if twins and rng.random() < 0.7:
+        cands.insert(0, rng.choice(twins))
     return cands[:n]
 
 
@@ -499,6 +709,7 @@ def emit_lookups(em, sh, rng, chunk):
         if e["type"] not in types:
             types.append(e["type"])
     rng.shuffle(types)
+    types.sort(key=lambda t: t not in sh.colliding[:4])     # stable: same-printing types are looked up first
     for t in types[:6] + absent_types(sh, rng, 2):
         r = "fortype %d %s" % (sid, sh.sx(t))
         em.req(r, dict(kind="fortype", sid=sid, type=t))
@@ -518,7 +729,7 @@ def emit_lookups(em, sh, rng, chunk):
     chunk.append("\tnewNames[*%s](%s, %s)" % (T, gostrlit(r), gostrlit(allkeys[0])))
     # New1..9 by witness types: arity rotates with the shape id, plus one random arity
     for n in sorted({1 + sid % 9, rng.randint(1, 9)}):
-        ws = [rng.choice(types) for _ in range(n)]
+        ws = [rng.choice(sh.colliding if sh.colliding and rng.random() < 0.4 else types) for _ in range(n)]
         if rng.random() < 0.2:
             ws[rng.randrange(n)] = absent_types(sh, rng, 1)[0]
         r = "newn %d $S %s" % (sid, " ".join(sh.sx(t) for t in ws))
@@ -613,7 +824,9 @@ def wrong_types_for(sh, e, rng):
     out = [x for x in out if x != t]
     rng.shuffle(out)
     same = [x for x in out if kind(x) == kind(t)]
-    return (same[:2] + out[:2])[:3]
+    twins = counterparts(t)          # other types with the same printed name
+    rng.shuffle(twins)
+    return ((twins[:1] if rng.random() < 0.7 else []) + same[:2] + out[:2])[:3]
 
 
 def emit_negative(em, sh, rng, chunk):
@@ -647,6 +860,17 @@ def emit_negative(em, sh, rng, chunk):
     n = rng.randint(1, 3)
     es = [sh.first_by_type(pick()["type"]) for _ in range(n)]
     add(fam(), "S", "$S", T, [e["type"] for e in es], [], "control-by-type")
+    # distinct types that print identically: by type every one of them must focus ITS first field; by name a field
+    # of the one type must not be accepted for a witness of the other
+    coll = [e for e in L if e["type"] in sh.colliding and e["value"] and sh.first_by_type(e["type"]) is e]
+    if coll:
+        es = rng.sample(coll, min(len(coll), rng.randint(2, 4)))
+        add(fam(), "S", "$S", T, [e["type"] for e in es], [], "control-by-type-same-print")
+        byname = [e for e in L if e["type"] in sh.colliding and sh.first_by_key(e["key"]) is e]
+        if byname:
+            e = rng.choice(byname)
+            tw = [t for t in sh.colliding if t != e["type"] and gostr(t) == gostr(e["type"])]
+            add(fam(), "S", "$S", T, [rng.choice(tw)], [e["key"]], "same-print-wrong-type-by-name")
     # unknown name
     n = rng.randint(1, 4)
     es = [sh.first_by_key(pick()["key"]) for _ in range(n)]
@@ -825,7 +1049,7 @@ def run_batches(ctx, oracle, want, sizes, ptr_embed=True, seed_tag=0):
             kw = {"suffix": "-%s-%d" % (oracle, b.idx)} if has_suffix else {}
             import time
             t0 = time.time()
-            binp, err = ctx.harness("layout", replaces(), extra_files={"shapes_gen.go": b.src}, **kw)
+            binp, err = ctx.harness("layout", replaces(), extra_files=dict(foreign_files(), **{"shapes_gen.go": b.src}), **kw)
             b.build_s = time.time() - t0
             if binp is None:
                 b.error = "harness does not build: " + (err or "")[-3000:]
@@ -882,6 +1106,15 @@ def shape_hist(ctx, sh):
     ctx.hist("has_tags", any(e["key"] != e["name"] for e in sh.listing))
     ctx.hist("dup_keys", len({e["key"] for e in sh.listing}) < len(sh.listing))
     ctx.hist("dup_types", len({e["type"] for e in sh.listing}) < len(sh.listing))
+    # distinct listed types that reflect prints identically (0 = none; 2.. = that many types in 1+ groups)
+    ctx.hist("colliding_types", len(sh.colliding))
+    ctx.hist("has_harness_pkg_type", any(foreign_ids(e["type"]) for e in sh.listing))
+    for g in sh.groups:
+        # g is in listing order: g[0] is the decoy in front of every later type of the group
+        ctx.hist("colliding_group", gostr(g[0]).replace("v1.", "v1·"))
+        for t in g[1:]:
+            a, b = size_align(g[0])[0], size_align(t)[0]
+            ctx.hist("colliding_decoy_before_focus", "smaller" if a < b else "larger" if a > b else "same-size")
     for e in sh.listing:
         t = strip(e["type"])
         ctx.hist("field_kind", t[1] if t[0] == "prim" else t[0])
@@ -889,4 +1122,6 @@ def shape_hist(ctx, sh):
 
 def case_of(b, req, meta):
     sh = b.by_sid[meta["sid"]]
-    return {"request": req, "shape": sexpr(sh.type), "go": "; ".join("type %s %s" % (i, gosrc(u)) for i, u in sh.decls), "batch": b.idx}
+    ids = sorted({i for e in sh.listing for i in foreign_ids(e["type"])})
+    imports = "; ".join("import %s \"harness/%s/v1\" (package v1: type %s %s)" % (FOREIGN_ALIAS[d], d, n, gosrc(FOREIGN[d][n])) for d, n in map(foreign_parts, ids))
+    return {"request": req, "shape": sexpr(sh.type), "go": "; ".join("type %s %s" % (i, gosrc(u)) for i, u in sh.decls) + ("; " + imports if imports else ""), "batch": b.idx}
